@@ -299,8 +299,9 @@ class Run:
             violations=len(self.violations),
         )
         ev['coverage'].update(getattr(self, 'extra_coverage', {}))
-        os.makedirs(os.path.join(VERIF, 'evidence'), exist_ok=True)
-        with open(os.path.join(VERIF, 'evidence', '%s.json' % self.pid), 'w') as f:
+        evdir = os.environ.get('VERIF_EVIDENCE_DIR') or os.path.join(VERIF, 'evidence')      # development runs on patched trees write elsewhere
+        os.makedirs(evdir, exist_ok=True)
+        with open(os.path.join(evdir, '%s.json' % self.pid), 'w') as f:
             json.dump(ev, f, indent=1, default=str)
         print('%s tier=%s: obligations %d discharged %d, configs %d, queries %d (unsat %d sat %d unknown %d), '
               'solver %.1fs, wall %.1fs -> exit %d' % (
